@@ -176,17 +176,22 @@ class Refine(FunctionContract):
     def replay(self, model, clause, case):
         from rpylib.grid.spatial import CTMCUniformGrid, CTMCGrid
         bad = False
+        case = 2 if case == "2-per-axis" else case
         if case >= 2:
             # per-axis storage with different values on each axis, refined twice
-            axes = [np.array([-1.0, -0.4, -0.25, 0.0, 0.25, 0.7, 2.0]), np.array([-3.0, -0.9, -0.25, 0.0, 0.25, 0.3, 0.5])][:case]
-            g2 = CTMCGrid(h=0.25, origin_coordinate=3, axes=[a.copy() for a in axes])
-            for _ in range(2):
-                prev = [a.copy() for a in g2.axes]
-                g2.refine()
-                for a, b in zip(prev, g2.axes):
-                    bad |= len(b) != 2 * len(a) - 1 or not np.allclose(b[::2], a) or not np.allclose(b[1::2], 0.5 * (a[:-1] + a[1:]))
-            if bad:
-                return (True, {"per_axis_grid": [a.tolist() for a in axes], "after_two_refinements": [a.tolist() for a in g2.axes]})
+            # (a) different bounds per axis, (b) the same number of states and the same bounds but different interior states
+            for axes in ([np.array([-1.0, -0.4, -0.25, 0.0, 0.25, 0.7, 2.0]), np.array([-3.0, -0.9, -0.25, 0.0, 0.25, 0.3, 0.5])],
+                         [np.array([-1.0, -0.4, -0.25, 0.0, 0.25, 0.7, 2.0]), np.array([-1.0, -0.9, -0.25, 0.0, 0.25, 0.3, 2.0])]):
+                axes = axes[:case]
+                g2 = CTMCGrid(h=0.25, origin_coordinate=3, axes=[a.copy() for a in axes])
+                g2.truncations = [(a[0], a[-1]) for a in axes]
+                for _ in range(2):
+                    prev = [a.copy() for a in g2.axes]
+                    g2.refine()
+                    for a, b in zip(prev, g2.axes):
+                        bad |= len(b) != 2 * len(a) - 1 or not np.allclose(b[::2], a) or not np.allclose(b[1::2], 0.5 * (a[:-1] + a[1:]))
+                if bad:
+                    return (True, {"per_axis_grid": [a.tolist() for a in axes], "after_two_refinements": [a.tolist() for a in g2.axes]})
         g = CTMCUniformGrid.create_from_fixed_nb_of_points(h=0.25, nb_of_points=7, dimension=case)
         old = [a.copy() for a in g.axes]
         o0, h0, tr = g.origin_coordinate.value, g.h, list(g.truncations)
